@@ -174,18 +174,19 @@ fn edge_sweep(rep: &Report, per_class: usize, core: bool, seed: u64) {
 /// console-interrupt paths through the real binary with hostile registers and stdin
 fn cli_interrupts(rep: &Report, n: usize, seed: u64) {
     par_for(n, 1, |i| {
-        let core = i < 24;
+        let core = i < 360;
         let mut rng = if core { Rng::new(0xC09C).fork(i as u64) } else { Rng::new(seed).fork(0xC09C_0000 + i as u64) };
-        let (int_no, ah) = if core {
-            [(0x21u8, 0x0Au8), (0x21, 1), (0x21, 2), (0x10, 0x0A), (0x10, 0x13), (0x21, 0x0A)][i % 6]
-        } else {
-            *rng.pick(&[(0x21u8, 0x0Au8), (0x21, 1), (0x21, 2), (0x10, 0x0A), (0x10, 0x13)])
-        };
-        let seg: u16 = *rng.pick(&[0xFFFFu16, 0xFFFF, 0xF000, 0, 0xFFF0]);
-        let off: u16 = *rng.pick(&[0x000Eu16, 0x000F, 0xFFFF, 0xFFFE, 0, 0x0010, 0x00FF, 2, 8, 12, 13, 0x00F8]);
+        const SERVICES: [(u8, u8); 5] = [(0x21, 0x0A), (0x21, 1), (0x21, 2), (0x10, 0x0A), (0x10, 0x13)];
+        const OFFS: [u16; 12] = [0x000E, 0x000F, 0xFFFF, 0xFFFE, 0, 0x0010, 0x00FF, 2, 8, 12, 13, 0x00F8];
+        // the core slice enumerates service x buffer offset x kind of standard input completely (end of input, empty
+        // line, short, long, no newline / multi-byte, very long): 5 x 12 x 6 runs
+        let enumerated = i < SERVICES.len() * OFFS.len() * 6;
+        let (int_no, ah) = if enumerated { SERVICES[i % 5] } else { *rng.pick(&SERVICES) };
+        let seg: u16 = if enumerated { [0xFFFFu16, 0xF000, 0xFFFF, 0][(i / 360) % 4 + (i % 2)] } else { *rng.pick(&[0xFFFFu16, 0xFFFF, 0xF000, 0, 0xFFF0]) };
+        let off: u16 = if enumerated { OFFS[(i / 5) % 12] } else { *rng.pick(&OFFS) };
         let cxv: u16 = *rng.pick(&[0u16, 1, 5, 40, 300, 1024, 1025, 1500, 5000, 65535]);
         let cap: u8 = *rng.pick(&[0u8, 1, 2, 3, 4, 5, 6, 7, 20, 255, 255]);
-        let stdin: Vec<u8> = match rng.below(6) {
+        let stdin: Vec<u8> = match if enumerated { (i / 60) % 6 } else { rng.below(6) } {
             0 => vec![],
             1 => b"\n".to_vec(),
             2 => b"ab\n".to_vec(),
@@ -212,7 +213,7 @@ fn cli_interrupts(rep: &Report, n: usize, seed: u64) {
             ah = ah,
             int = int_no
         );
-        let out = run_cli(src.as_bytes(), &CliOpts { stdin: &stdin, ..Default::default() });
+        let out = run_cli(src.as_bytes(), &CliOpts { stdin: &stdin, env: vec![("VERIF_NOMEM", "1")], ..Default::default() });
         rep.eval(1);
         rep.distinct_str(&format!("int{}|ah{}|{:04x}:{:04x}|cap{}|in{}", int_no, ah, seg, off, cap, stdin.len()));
         if out.timed_out {
@@ -315,7 +316,7 @@ pub fn run(rep: &Report) {
     sweep(rep, if t { 13 * 8 * 20_000 } else { 13 * 8 * 400 }, false, rep.seed ^ 0x90);
     edge_sweep(rep, 600, true, 0xC09E);
     edge_sweep(rep, if t { 200_000 } else { 3000 }, false, rep.seed ^ 0x9E);
-    cli_interrupts(rep, if t { 3000 } else { 120 }, rep.seed);
+    cli_interrupts(rep, if t { 3000 } else { 360 + 60 }, rep.seed);
     rep.floor("instruction executions", rep.evals(), 20_000);
 }
 
